@@ -5,8 +5,8 @@ From Coq Require Import Lia.
 From RV.Model Require Import Base Word Limbs Bytes DivRecip DivSmall Redc.
 From RV.Model Require DivRef DivKnuth Shift.
 From RV.Gen Require Import Prim Scalar.
-From RV.Model Require Add Mul UDiv Conv Bits Pow Modular.
-From RV.Proofs Require Import BaseFacts PfGenScalar PfGenAdd PfGenMul PfGenDiv PfGenSpecial PfGenCtor PfGenBits PfGenDivRef PfGenLimbs PfGenRedc PfGenKnuth PfGenShift PfGenPow PfGenModular.
+From RV.Model Require Add Mul UDiv Conv Bits Pow Modular GcdMatrix.
+From RV.Proofs Require Import BaseFacts PfGenScalar PfGenAdd PfGenMul PfGenDiv PfGenSpecial PfGenCtor PfGenBits PfGenDivRef PfGenLimbs PfGenRedc PfGenKnuth PfGenShift PfGenPow PfGenModular PfGenMatrix.
 
 Theorem GenTie_source_equals_model :
   (forall bits, 0 <= bits -> bits + 63 < B -> g_nlimbs bits = Val (nlimbs bits)) /\
@@ -425,6 +425,19 @@ Proof.
 Qed.
 Print Assumptions GenTie_modular_rs.
 
+(* src/algorithms/gcd/matrix.rs: the tuple struct Matrix, compose, apply_u128 and from_u64, whose
+   `loop { .. return .. }` runs with the round bound 70 of the translator's table *)
+Theorem GenTie_matrix_rs : forall s o a b r0 r1,
+  wf_mat s -> wf_mat o -> 0 <= r0 < B -> 0 <= r1 < B ->
+  g_mat_compose (mat_tuple s) (mat_tuple o) = omap mat_tuple (GcdMatrix.compose s o) /\
+  g_mat_apply_u128 (mat_tuple s) a b = Val (GcdMatrix.apply_u128 s a b) /\
+  g_mat_from_u64 r0 r1 = omap mat_tuple (GcdMatrix.from_u64 r0 r1).
+Proof.
+  intros s o a b r0 r1 Hs Ho H0 H1.
+  exact (conj (g_mat_compose_eq s o Hs Ho) (conj (g_mat_apply_u128_eq s a b) (g_mat_from_u64_eq r0 r1 H0 H1))).
+Qed.
+Print Assumptions GenTie_matrix_rs.
+
 (* the premises are satisfiable and the generated code computes: reciprocal(2^63) = 2^64 - 1 *)
 Example GenTie_nonvacuous :
   g_reciprocal_mg10 (2 ^ 63) = Val (2 ^ 64 - 1) /\ g_mask 65 = Val 1 /\ g_nlimbs 65 = Val 2 /\
@@ -446,6 +459,8 @@ Example GenTie_nonvacuous :
   g_arithmetic_shr 65 2 [0; 1] 64 = Val [2 ^ 64 - 1; 1] /\
   g_bitxor 65 2 [5; 1] [3; 1] = Val [6; 0] /\
   g_leading_zeros 65 2 [5; 0] = Val 62 /\
+  g_mat_from_u64 240 46 = Val (9, 47, 23, 120, false) /\
+  g_mat_compose (1, 2, 3, 4, true) (5, 6, 7, 8, false) = Val (19, 22, 43, 50, false) /\
   g_add_mod 65 2 [2 ^ 64 - 1; 1] [2 ^ 64 - 1; 1] [2 ^ 64 - 3; 1] = Val [4; 0] /\
   g_u_mul_redc 64 1 [3] [5] [15] 0x1111111111111111 = Val [0] /\
   g_overflowing_pow 65 2 [3; 0] [41; 0] = Val ([36472996377170786403 mod 2 ^ 64; 1], false) /\
